@@ -252,3 +252,73 @@ def bcrypt_sign_family(rng):
                     out.append(bytes(k2))
     out += [b"\xff\xa3a", b"\xff\xa3abcde", b"\xa3", b"\xff\xff\xa3", b"\xff\xa334\xff\xff\xff\xa3345", b"1\xa3345", b"\xff\xa3345"]
     return out
+
+
+def grammar_boundaries(m, rng):
+    """Settings at the edges of method m's setting grammar: every field empty / shortest / longest / one longer,
+    numeric fields at and around their limits and in odd spellings, optional separators present and absent.
+    Whether each is to be accepted is decided by Settings.tla; what it hashes to by the released library.
+    Only cheap costs are listed (a valid setting must stay within the compute budget, DESIGN.md section 4)."""
+    S = lambda n: salt(rng, n)
+    out = []
+    if m == "md5crypt":
+        out += ["$1$" + S(n) for n in range(0, 11)] + ["$1$" + S(n) + "$" for n in (0, 1, 7, 8, 9)]
+        out += ["$1", "$1$$", "$1$$$", "$1$" + S(4) + "$junk", "$1$" + S(8) + "$" + S(22), "$1$" + S(3) + "-" + S(3), "$1$ab,cd", "$1$ab+cd", "$1$ab=cd"]
+    elif m in ("sha256crypt", "sha512crypt"):
+        p = PREFIX[m]
+        out += [p + S(n) for n in range(0, 19)] + [p + S(n) + "$" for n in (0, 1, 15, 16, 17)]
+        for r in ("999", "1000", "1001", "4999", "5000", "5001", "9999", "10000", "01000", "+1000", "-1000", "1000x", "", "1e3", "0x3e8",
+                  "1000.", " 1000", "1000 ", "00", "0"):
+            out += [p + "rounds=" + r + "$" + S(8), p + "rounds=" + r]
+        out += [p + "rounds=1000" + S(4), p + "rounds=1000$", p + "rounds=1000$$", p + "rounds=1000$" + S(16) + "$", p + "rounds=1000$" + S(17),
+                p + "round=1000$" + S(4), p + "rounds1000$" + S(4), p + "Rounds=1000$" + S(4), p + "rounds=1000,$" + S(4), p[:-1], p + "$", p + S(5) + "-" + S(2)]
+    elif m == "sunmd5":
+        for head in ("$md5$", "$md5,"):
+            out += [head + S(n) for n in (0, 1, 7, 8, 9, 16, 40)] + [head + S(n) + "$" for n in (0, 1, 8, 9)] + [head + S(n) + "$$" for n in (0, 1, 8, 9)]
+            for r in ("0", "1", "2", "9", "10", "65536", "01", "+1", "-1", "1x", "", " 1"):
+                out += [head + "rounds=" + r + "$" + S(8), head + "rounds=" + r + "$" + S(8) + "$", head + "rounds=" + r]
+        out += ["$md5", "$md5x", "$md5$$", "$md5$$$", "$md5$" + S(8) + "$x", "$md5$" + S(8) + "$$x", "$md5$" + S(8) + "$" + S(22), "$md5$" + S(3) + "-" + S(3),
+                "$md5$rounds=1$", "$md5$rounds=1$$", "$md5$rounds=1", "$md5,rounds=1," + S(4), "$md5$round=1$" + S(4)]
+    elif m == "sha1crypt":
+        for it in ("0", "1", "2", "9", "10", "11", "010", "+5", "-0", " 5", "5 ", "", "5x", "0x5", "00000000005"):
+            out += ["$sha1$" + it + "$" + S(8), "$sha1$" + it + "$" + S(8) + "$", "$sha1$" + it]
+        out += ["$sha1$5$" + S(n) for n in (0, 1, 2, 62, 63, 64, 65)] + ["$sha1$5$" + S(n) + "$" + S(28) for n in (1, 64)]
+        out += ["$sha1", "$sha1$", "$sha1$$", "$sha1$5$$", "$sha1$5$" + S(3) + "-" + S(3), "$sha1x5$" + S(4), "$sha15$" + S(4)]
+    elif m == "nt":
+        out += ["$3", "$3$", "$3$$", "$3$$$", "$3$junk", "$3$$" + "0" * 32, "$3$$" + "g" * 32, "$3$" + S(8) + "$", "$3x"]
+    elif m in ("bcrypt", "bcrypt_a", "bcrypt_x", "bcrypt_y"):
+        p = PREFIX[m]
+        for c in ("03", "04", "05", "06", "10", "4", "004", "32", "99", "", "0 4", "4$", "x4", "4x"):
+            out.append(p + c + "$" + salt(rng, 22, BF64))
+        for n in (0, 1, 20, 21, 22, 23, 30, 53):
+            out.append(p + "04$" + salt(rng, n, BF64))
+        out += [p + "04$" + salt(rng, 21, BF64) + c for c in ".OeuA/9zZ"]          # every class of 22nd character
+        out += [p + "04" + salt(rng, 22, BF64), p + "04$" + salt(rng, 10, BF64) + "$" + salt(rng, 11, BF64), p + "04$" + salt(rng, 10, BF64) + "-" + salt(rng, 11, BF64),
+                p[:-1], p + "04$" + salt(rng, 22, BF64) + "$", p + "04$" + salt(rng, 22, BF64) + salt(rng, 31, BF64)]
+    elif m == "bsdicrypt":
+        for c in ("....", "/...", "0...", "./..", "z...", "zz..", "..../", "...."):
+            out.append("_" + c + S(4))
+        out += ["_", "_/", "_/..", "_/...", "_/..." + S(1), "_/..." + S(3), "_/..." + S(4) + S(11), "_/..." + S(4) + "x" * 20, "_/..." + S(4) + "$", "_/...$" + S(3),
+                "_/..-" + S(4), "__..." + S(4), "_/..._" + S(3)]
+    elif m in ("descrypt", "bigcrypt"):
+        out += ["", ".", "..", "zz", "./", "/.", "Az", "9a", "a", "ab" + S(11), "ab" + S(12), "ab" + S(22), "ab" + S(23), "ab$", "a$", "$a", "ab" + "-" * 11, "ab" + S(5) + "-" + S(5),
+                "a-", "-a", "ab" + S(11) + "-", "ab" + S(180)]
+    elif m in ("yescrypt", "gost_yescrypt"):
+        p = PREFIX[m]
+        for n in (0, 1, 2, 3, 4, 5, 6, 22, 43, 84, 85, 86, 87, 88, 100):
+            out += [p + "j65$" + ysalt(rng, n) if n <= 86 else p + "j65$" + S(n)]
+        out += [p + "j65$" + ysalt(rng, 8) + "$", p + "j65$" + ysalt(rng, 8) + "$junk", p + "j65$" + ysalt(rng, 8) + "$" + S(43), p + "j65$$", p + "j65$$" + S(43),
+                p + "j65", p + "j6", p + "j", p, p[:-1], p + "j65$" + S(3) + "-" + S(3), p + "j.5$" + ysalt(rng, 4), p + "j/5$" + ysalt(rng, 4), p + "j05$" + ysalt(rng, 4),
+                p + "j6.$" + ysalt(rng, 4), p + "j6/$" + ysalt(rng, 4), p + "j6z$" + ysalt(rng, 4), p + "k65$" + ysalt(rng, 4), p + "i65$" + ysalt(rng, 4), p + "z65$" + ysalt(rng, 4),
+                p + "j65$" + S(1), p + "j65$" + S(2), p + "j65$" + S(5)]            # non-canonical short salts
+    elif m == "scrypt":
+        for nch in "./0123456789AB":
+            out.append("$7$" + nch + "/..../...." + S(8))
+        for r in ("/....", "0....", ".....", "z....", "./...", "....."):
+            out.append("$7$4" + r + "/...." + S(8))
+        for pp in ("/....", "0....", ".....", "1....", "./..."):
+            out.append("$7$4/...." + pp + S(8))
+        out += ["$7$4/..../...." + S(n) for n in (0, 1, 2, 43, 64, 100)] + ["$7$4/..../...." + S(8) + "$", "$7$4/..../...." + S(8) + "$junk", "$7$4/..../....$",
+                "$7$4/..../....$" + S(43), "$7$4/..../...", "$7$4/....", "$7$4", "$7$", "$7", "$7$4/..../...-" + S(4), "$7$4/..../...." + S(3) + "-" + S(3),
+                "$7$4/..-./...." + S(4)]
+    return out
